@@ -599,6 +599,19 @@ def r7(ctx):
             # x ** y with a run-time exponent: a Python float power raises OverflowError where compiled code returns inf
             if isinstance(n, ast.BinOp) and isinstance(n.op, ast.Pow) and not isinstance(n.right, ast.Constant):
                 unknown.append((None, f"power with a run-time exponent `{unparse(n, 40)}`"))
+        for n in Resolver.walk_own(fi.node):
+            # an allocation whose dtype is a run-time value (`dtype=cost.dtype`, a local bound to one): the work tables then follow the
+            # caller's precision, and NumPy's scalar arithmetic on float32 / integer cells promotes differently from Numba's
+            # (round 8, C15-u1: near-ties around 2**24 labelled differently).  Literal dtypes (np.float64, float, "f8") are the same in both.
+            if isinstance(n, ast.Call):
+                dt = next((k.value for k in n.keywords if k.arg == "dtype"), None)
+                if dt is None:
+                    continue
+                lit = isinstance(dt, ast.Constant) or (isinstance(dt, ast.Name) and dt.id in ("float", "int", "bool", "complex")) or (
+                    isinstance(dt, ast.Attribute) and isinstance(dt.value, ast.Name) and dt.value.id in ("np", "numpy", "numba", "nb")
+                    and dt.attr != "dtype")
+                if not lit:
+                    unknown.append((None, f"allocation with a run-time dtype `{unparse(n, 60)}`"))
         # a local that is not assigned on every path to a read: UnboundLocalError in the interpreter, a zero-initialised value in
         # compiled code (definite-assignment analysis: a must-dataflow over the CFG)
         cfg_ = ana.cfg(fi)
